@@ -6,7 +6,7 @@ import random
 import warnings
 
 from harness.common import Ck, coq_bool, coq_list, parse_coq_N_list
-from translate import c01_kvser
+from translate import c01_kvser, c02_tables
 
 MANIFEST = dict(
     technique='Rocq proof (character-level tokenizer model + Keyvalues.parse token loop + template-interpreting '
@@ -34,6 +34,8 @@ MANIFEST = dict(
 
 IMPORTS = ['Coq.Lists.List', 'Coq.NArith.NArith', 'Coq.Bool.Bool', 'SV.KV.KvBase', 'SV.KV.KvLex', 'SV.KV.KvParse',
            'SV.KV.KvSer', 'SV.KV.KvSym', 'SV.Gen.KVSer_gen']
+IMPORTS_REFINE = ['Coq.Lists.List', 'Coq.NArith.NArith', 'Coq.Bool.Bool', 'SV.Text.Str', 'SV.Text.Prog', 'SV.Text.Tokenizer',
+                  'SV.Text.TokGen', 'SV.KV.KvBase', 'SV.KV.KvLex', 'SV.KV.KvParse', 'SV.KV.KvRefine', 'SV.Gen.KVSer_gen']
 PRE = '''Import ListNotations. Open Scope N_scope.
 Fixpoint bad_idx {A} (f : A -> bool) (n : N) (l : list A) : list N :=
   match l with [] => [] | x :: r => (if f x then [] else [n]) ++ bad_idx f (n + 1) r end.
@@ -807,7 +809,10 @@ def run(ck: Ck) -> None:
     ]
     ok_t = ck.translate('KVSer_gen', c01_kvser.translate)
     side = ck.extra.get('translated', {}).get('KVSer_gen', {})
-    built = ok_t and ck.build(['Gen/KVSer_gen.vo', 'Props/C01.vo'])   # Props is generic over Gen: name Gen explicitly
+    # the constant tables of the C03 tokenizer model (Text/TokGen.v over Gen/EscTables_gen.v, C02's translator): the
+    # refinement theorem kv_lexer_refines_tokenizer is instantiated for them
+    ok_t = ck.translate('EscTables_gen', c02_tables.translate) and ok_t
+    built = ok_t and ck.build(['Gen/KVSer_gen.vo', 'Gen/EscTables_gen.vo', 'Text/TokGen.vo', 'Props/C01.vo'])
     if built:
         ck.theorems('Props/C01.v')
         noraw = '(fun t => forallb (fun p => match p with PRaw _ | POther => false | _ => true end) t)'
@@ -834,6 +839,12 @@ def run(ck: Ck) -> None:
             'no_store_to_tree_in_writers': 'Nat.eqb (length gen_tree_stores) 0',
             'no_mutating_call_on_tree_in_writers': 'Nat.eqb (length gen_tree_mut_calls) 0',
         })
+        inst.update(ck.instance_obligations(IMPORTS_REFINE, {
+            'tokenizer_model_escape_table_equals_kv_lexer_table': 'esc_tables_match gen_tables gen_escfg',
+            'tokenizer_model_BARE_DISALLOWED_equals_kv_lexer_set': 'bare_tables_match gen_tables',
+            'tokenizer_model_operators_are_brace_open_close_equals_comma': 'ops_match (Str.operators gen_tables)',
+            'tables_match(premise of parse_any_delivery)': 'tables_match gen_tables gen_escfg',
+        }, name='inst_refine'))
         if not all(inst.values()):
             ck.tie_broken.append('instance obligations over Gen/KVSer_gen.v: ' + ', '.join(k for k, v in inst.items() if not v))
         tie_tables(ck, side)
